@@ -115,21 +115,21 @@ mod k {
         std::mem::forget(b);
     }
 
-    /// VERIF: {"p":"C12","tier":"quick","fns":["packet::Fragment::new_udp4","packet::Fragment::new_ipv4","packet::Fragment::new_ethernet","packet::Fragment::flatten","packet::partial_netsum","packet::finish_netsum"],"bounds":"payload of 0 symbolic bytes; all addresses, ports and MAC addresses symbolic","oracle":"frame length, MACs, ethertype, IPv4 version/ihl/total length/fragment fields/ttl/protocol/addresses, UDP ports/length, payload bytes unchanged","covers":1,"unwind":12}
+    /// VERIF: {"p":"C12","tier":"thorough","fns":["packet::Fragment::new_udp4","packet::Fragment::new_ipv4","packet::Fragment::new_ethernet","packet::Fragment::flatten","packet::partial_netsum","packet::finish_netsum"],"bounds":"payload of 0 symbolic bytes; all addresses, ports and MAC addresses symbolic","oracle":"frame length, MACs, ethertype, IPv4 version/ihl/total length/fragment fields/ttl/protocol/addresses, UDP ports/length, payload bytes unchanged","covers":1,"unwind":12}
     #[kani::proof]
     #[kani::unwind(12)]
     fn c12_udp4_frame_layout_p0() {
         frame_layout::<0>();
     }
 
-    /// VERIF: {"p":"C12","tier":"quick","fns":["packet::Fragment::new_udp4","packet::Fragment::new_ipv4","packet::Fragment::new_ethernet","packet::Fragment::flatten","packet::partial_netsum","packet::finish_netsum"],"bounds":"payload of 0 symbolic bytes; all addresses, ports and MAC addresses symbolic","oracle":"IPv4 header checksum verifies (RFC 1071 sum over the 20 header bytes == 0xffff), computed by an independent summation","covers":1,"unwind":12}
+    /// VERIF: {"p":"C12","tier":"thorough","fns":["packet::Fragment::new_udp4","packet::Fragment::new_ipv4","packet::Fragment::new_ethernet","packet::Fragment::flatten","packet::partial_netsum","packet::finish_netsum"],"bounds":"payload of 0 symbolic bytes; all addresses, ports and MAC addresses symbolic","oracle":"IPv4 header checksum verifies (RFC 1071 sum over the 20 header bytes == 0xffff), computed by an independent summation","covers":1,"unwind":12}
     #[kani::proof]
     #[kani::unwind(12)]
     fn c12_udp4_frame_ipck_p0() {
         frame_ipck::<0>();
     }
 
-    /// VERIF: {"p":"C12","tier":"quick","fns":["packet::Fragment::new_udp4","packet::Fragment::new_ipv4","packet::Fragment::new_ethernet","packet::Fragment::flatten","packet::partial_netsum","packet::finish_netsum"],"bounds":"payload of 0 symbolic bytes; all addresses, ports and MAC addresses symbolic","oracle":"UDP checksum verifies over pseudo-header + segment (RFC 768), computed by an independent summation","covers":1,"unwind":12}
+    /// VERIF: {"p":"C12","tier":"experimental","fns":["packet::Fragment::new_udp4","packet::Fragment::new_ipv4","packet::Fragment::new_ethernet","packet::Fragment::flatten","packet::partial_netsum","packet::finish_netsum"],"bounds":"payload of 0 symbolic bytes; all addresses, ports and MAC addresses symbolic","oracle":"UDP checksum verifies over pseudo-header + segment (RFC 768), computed by an independent summation","covers":1,"unwind":12}
     #[kani::proof]
     #[kani::unwind(12)]
     fn c12_udp4_frame_udpck_p0() {
@@ -143,35 +143,35 @@ mod k {
         frame_layout::<1>();
     }
 
-    /// VERIF: {"p":"C12","tier":"quick","fns":["packet::Fragment::new_udp4","packet::Fragment::new_ipv4","packet::Fragment::new_ethernet","packet::Fragment::flatten","packet::partial_netsum","packet::finish_netsum"],"bounds":"payload of 1 symbolic bytes; all addresses, ports and MAC addresses symbolic","oracle":"IPv4 header checksum verifies (RFC 1071 sum over the 20 header bytes == 0xffff), computed by an independent summation","covers":1,"unwind":12}
+    /// VERIF: {"p":"C12","tier":"thorough","fns":["packet::Fragment::new_udp4","packet::Fragment::new_ipv4","packet::Fragment::new_ethernet","packet::Fragment::flatten","packet::partial_netsum","packet::finish_netsum"],"bounds":"payload of 1 symbolic bytes; all addresses, ports and MAC addresses symbolic","oracle":"IPv4 header checksum verifies (RFC 1071 sum over the 20 header bytes == 0xffff), computed by an independent summation","covers":1,"unwind":12}
     #[kani::proof]
     #[kani::unwind(12)]
     fn c12_udp4_frame_ipck_p1() {
         frame_ipck::<1>();
     }
 
-    /// VERIF: {"p":"C12","tier":"quick","fns":["packet::Fragment::new_udp4","packet::Fragment::new_ipv4","packet::Fragment::new_ethernet","packet::Fragment::flatten","packet::partial_netsum","packet::finish_netsum"],"bounds":"payload of 1 symbolic bytes; all addresses, ports and MAC addresses symbolic","oracle":"UDP checksum verifies over pseudo-header + segment (RFC 768), computed by an independent summation","covers":1,"unwind":12}
+    /// VERIF: {"p":"C12","tier":"experimental","fns":["packet::Fragment::new_udp4","packet::Fragment::new_ipv4","packet::Fragment::new_ethernet","packet::Fragment::flatten","packet::partial_netsum","packet::finish_netsum"],"bounds":"payload of 1 symbolic bytes; all addresses, ports and MAC addresses symbolic","oracle":"UDP checksum verifies over pseudo-header + segment (RFC 768), computed by an independent summation","covers":1,"unwind":12}
     #[kani::proof]
     #[kani::unwind(12)]
     fn c12_udp4_frame_udpck_p1() {
         frame_udpck::<1>();
     }
 
-    /// VERIF: {"p":"C12","tier":"quick","fns":["packet::Fragment::new_udp4","packet::Fragment::new_ipv4","packet::Fragment::new_ethernet","packet::Fragment::flatten","packet::partial_netsum","packet::finish_netsum"],"bounds":"payload of 2 symbolic bytes; all addresses, ports and MAC addresses symbolic","oracle":"frame length, MACs, ethertype, IPv4 version/ihl/total length/fragment fields/ttl/protocol/addresses, UDP ports/length, payload bytes unchanged","covers":1,"unwind":12}
+    /// VERIF: {"p":"C12","tier":"thorough","fns":["packet::Fragment::new_udp4","packet::Fragment::new_ipv4","packet::Fragment::new_ethernet","packet::Fragment::flatten","packet::partial_netsum","packet::finish_netsum"],"bounds":"payload of 2 symbolic bytes; all addresses, ports and MAC addresses symbolic","oracle":"frame length, MACs, ethertype, IPv4 version/ihl/total length/fragment fields/ttl/protocol/addresses, UDP ports/length, payload bytes unchanged","covers":1,"unwind":12}
     #[kani::proof]
     #[kani::unwind(12)]
     fn c12_udp4_frame_layout_p2() {
         frame_layout::<2>();
     }
 
-    /// VERIF: {"p":"C12","tier":"quick","fns":["packet::Fragment::new_udp4","packet::Fragment::new_ipv4","packet::Fragment::new_ethernet","packet::Fragment::flatten","packet::partial_netsum","packet::finish_netsum"],"bounds":"payload of 2 symbolic bytes; all addresses, ports and MAC addresses symbolic","oracle":"IPv4 header checksum verifies (RFC 1071 sum over the 20 header bytes == 0xffff), computed by an independent summation","covers":1,"unwind":12}
+    /// VERIF: {"p":"C12","tier":"thorough","fns":["packet::Fragment::new_udp4","packet::Fragment::new_ipv4","packet::Fragment::new_ethernet","packet::Fragment::flatten","packet::partial_netsum","packet::finish_netsum"],"bounds":"payload of 2 symbolic bytes; all addresses, ports and MAC addresses symbolic","oracle":"IPv4 header checksum verifies (RFC 1071 sum over the 20 header bytes == 0xffff), computed by an independent summation","covers":1,"unwind":12}
     #[kani::proof]
     #[kani::unwind(12)]
     fn c12_udp4_frame_ipck_p2() {
         frame_ipck::<2>();
     }
 
-    /// VERIF: {"p":"C12","tier":"quick","fns":["packet::Fragment::new_udp4","packet::Fragment::new_ipv4","packet::Fragment::new_ethernet","packet::Fragment::flatten","packet::partial_netsum","packet::finish_netsum"],"bounds":"payload of 2 symbolic bytes; all addresses, ports and MAC addresses symbolic","oracle":"UDP checksum verifies over pseudo-header + segment (RFC 768), computed by an independent summation","covers":1,"unwind":12}
+    /// VERIF: {"p":"C12","tier":"experimental","fns":["packet::Fragment::new_udp4","packet::Fragment::new_ipv4","packet::Fragment::new_ethernet","packet::Fragment::flatten","packet::partial_netsum","packet::finish_netsum"],"bounds":"payload of 2 symbolic bytes; all addresses, ports and MAC addresses symbolic","oracle":"UDP checksum verifies over pseudo-header + segment (RFC 768), computed by an independent summation","covers":1,"unwind":12}
     #[kani::proof]
     #[kani::unwind(12)]
     fn c12_udp4_frame_udpck_p2() {
@@ -192,7 +192,7 @@ mod k {
         frame_ipck::<3>();
     }
 
-    /// VERIF: {"p":"C12","tier":"thorough","fns":["packet::Fragment::new_udp4","packet::Fragment::new_ipv4","packet::Fragment::new_ethernet","packet::Fragment::flatten","packet::partial_netsum","packet::finish_netsum"],"bounds":"payload of 3 symbolic bytes; all addresses, ports and MAC addresses symbolic","oracle":"UDP checksum verifies over pseudo-header + segment (RFC 768), computed by an independent summation","covers":1,"unwind":12}
+    /// VERIF: {"p":"C12","tier":"experimental","fns":["packet::Fragment::new_udp4","packet::Fragment::new_ipv4","packet::Fragment::new_ethernet","packet::Fragment::flatten","packet::partial_netsum","packet::finish_netsum"],"bounds":"payload of 3 symbolic bytes; all addresses, ports and MAC addresses symbolic","oracle":"UDP checksum verifies over pseudo-header + segment (RFC 768), computed by an independent summation","covers":1,"unwind":12}
     #[kani::proof]
     #[kani::unwind(12)]
     fn c12_udp4_frame_udpck_p3() {
@@ -213,7 +213,7 @@ mod k {
         frame_ipck::<4>();
     }
 
-    /// VERIF: {"p":"C12","tier":"thorough","fns":["packet::Fragment::new_udp4","packet::Fragment::new_ipv4","packet::Fragment::new_ethernet","packet::Fragment::flatten","packet::partial_netsum","packet::finish_netsum"],"bounds":"payload of 4 symbolic bytes; all addresses, ports and MAC addresses symbolic","oracle":"UDP checksum verifies over pseudo-header + segment (RFC 768), computed by an independent summation","covers":1,"unwind":12}
+    /// VERIF: {"p":"C12","tier":"experimental","fns":["packet::Fragment::new_udp4","packet::Fragment::new_ipv4","packet::Fragment::new_ethernet","packet::Fragment::flatten","packet::partial_netsum","packet::finish_netsum"],"bounds":"payload of 4 symbolic bytes; all addresses, ports and MAC addresses symbolic","oracle":"UDP checksum verifies over pseudo-header + segment (RFC 768), computed by an independent summation","covers":1,"unwind":12}
     #[kani::proof]
     #[kani::unwind(12)]
     fn c12_udp4_frame_udpck_p4() {
@@ -234,7 +234,7 @@ mod k {
         frame_ipck::<7>();
     }
 
-    /// VERIF: {"p":"C12","tier":"thorough","fns":["packet::Fragment::new_udp4","packet::Fragment::new_ipv4","packet::Fragment::new_ethernet","packet::Fragment::flatten","packet::partial_netsum","packet::finish_netsum"],"bounds":"payload of 7 symbolic bytes; all addresses, ports and MAC addresses symbolic","oracle":"UDP checksum verifies over pseudo-header + segment (RFC 768), computed by an independent summation","covers":1,"unwind":12}
+    /// VERIF: {"p":"C12","tier":"experimental","fns":["packet::Fragment::new_udp4","packet::Fragment::new_ipv4","packet::Fragment::new_ethernet","packet::Fragment::flatten","packet::partial_netsum","packet::finish_netsum"],"bounds":"payload of 7 symbolic bytes; all addresses, ports and MAC addresses symbolic","oracle":"UDP checksum verifies over pseudo-header + segment (RFC 768), computed by an independent summation","covers":1,"unwind":12}
     #[kani::proof]
     #[kani::unwind(12)]
     fn c12_udp4_frame_udpck_p7() {
